@@ -70,9 +70,11 @@ def gen_ts(rng):
     return [0.0, s, t, s + t]
 
 
-def gen_case(rng, kind, dyadic=False, batch="none", n=None, code=None):
+def gen_case(rng, kind, dyadic=False, batch="none", n=None, code=None, route=None):
     """batch: none | all | subset"""
     c = {"kind": kind, "dyadic": dyadic}
+    route = route if route is not None else gen_route(rng, kind)
+    c["route"] = route
     names = PARAM_NAMES[kind]
     S = 1 if batch == "none" or not names else rng.choice([2, 3])
     if batch == "all":
@@ -104,6 +106,9 @@ def gen_case(rng, kind, dyadic=False, batch="none", n=None, code=None):
         k = rng.randint(1, m)
         c["mapping"] = [rng.randrange(k) for _ in range(m)] if rng.random() < 0.8 else list(range(m))
         nrates = max(c["mapping"]) + 1 + rng.choice([0, 0, 1])
+    if kind in ("GeneralSymmetric", "GeneralNonSymmetric") and route.get("mapping") == "absent":
+        c["mapping"] = list(range(m))  # what from_json supplies when the key is absent
+        nrates = m
     dims = {"kappa": 1, "alpha": 1, "beta": 1, "frequencies": n}
     if kind == "GTR":
         dims["rates"] = 6
@@ -129,6 +134,25 @@ def gen_case(rng, kind, dyadic=False, batch="none", n=None, code=None):
     if names and kind != "Empirical" and rng.random() < (0.3 if kind == "MG94" else 0.6):
         add_updates(rng, c, rng.randint(1, 2))
     return c
+
+
+def gen_route(rng, kind, rkind=None):
+    """how the object is built: positional constructor; keyword constructor (any keyword order); from_json through
+    process_object with every optional key absent / given (mapping: absent | list | Parameter object; normalize:
+    absent | true | false), any key order, parameters and data type inline or by reference, short or full type
+    name; the JSON the CLI emits for the class"""
+    rkind = rkind or rng.choice(["ctor", "kw", "json", "json", "json", "cli"])
+    if kind == "Empirical":
+        rkind = "ctor"  # abstract class: only the harness subclass can be instantiated
+    r = {"kind": rkind, "order": rng.randrange(1000)}
+    if rkind in ("json", "cli"):
+        r["form"] = rng.choice(["inline", "ref"])
+        r["fulltype"] = rng.random() < 0.3
+    if kind in ("GeneralSymmetric", "GeneralNonSymmetric"):
+        r["mapping"] = rng.choice(["absent", "list", "object"]) if rkind == "json" else ("absent" if rkind == "cli" else "list")
+    if kind == "GeneralNonSymmetric":
+        r["normalize"] = rng.choice(["absent", "absent", True, False]) if rkind in ("json", "kw", "ctor") else "absent"
+    return r
 
 
 def add_updates(rng, c, k, which=None):
@@ -174,10 +198,46 @@ def supported_batching(c):
 
 
 # ------------------------------------------------------------------ the real classes
+OBSERVED = []  # option/attribute disagreements of the object built last
 PARS = {}  # the Parameter objects handed to the model built last (assignments go through them)
 
 
+CLI_NOTES = []
+_REGISTERED = [False]
+
+
+def _register_all():
+    """what torchtree.py does before reading a JSON file: import every module so that short type names resolve"""
+    if not _REGISTERED[0]:
+        import importlib
+
+        from torchtree.core.utils import package_contents
+
+        for mod in package_contents("torchtree"):
+            try:
+                importlib.import_module(mod)
+            except Exception:
+                pass
+        _REGISTERED[0] = True
+
+
+FULL = {
+    "JC69": "torchtree.evolution.substitution_model.nucleotide.JC69",
+    "HKY": "torchtree.evolution.substitution_model.nucleotide.HKY",
+    "GTR": "torchtree.evolution.substitution_model.nucleotide.GTR",
+    "GeneralJC69": "torchtree.evolution.substitution_model.general.GeneralJC69",
+    "GeneralSymmetric": "torchtree.evolution.substitution_model.general.GeneralSymmetricSubstitutionModel",
+    "GeneralNonSymmetric": "torchtree.evolution.substitution_model.general.GeneralNonSymmetricSubstitutionModel",
+    "LG": "torchtree.evolution.substitution_model.amino_acid.LG",
+    "WAG": "torchtree.evolution.substitution_model.amino_acid.WAG",
+    "MG94": "torchtree.evolution.substitution_model.codon.MG94",
+}
+
+
 def build(c):
+    import json
+    import random
+
     import torch
     from torchtree.core.parameter import Parameter
     from torchtree.evolution.datatype import CodonDataType, GeneralDataType
@@ -191,26 +251,20 @@ def build(c):
     )
     from torchtree.evolution.substitution_model.nucleotide import GTR, HKY, JC69
 
-    def par(name):
+    def tens(name):
         v = c["params"][name]
-        t = torch.tensor(v if c["batch"][name] else v[0], dtype=torch.float64)
-        PARS[name] = Parameter(name, t)
+        return torch.tensor(v if c["batch"][name] else v[0], dtype=torch.float64)
+
+    def par(name):
+        PARS[name] = Parameter(name, tens(name))
         return PARS[name]
 
     PARS.clear()
     k, n = c["kind"], c["n"]
-    if k == "JC69":
-        return JC69("m")
-    if k == "GeneralJC69":
-        return GeneralJC69("m", n)
-    if k == "LG":
-        return LG("m")
-    if k == "WAG":
-        return WAG("m")
-    if k == "HKY":
-        return HKY("m", par("kappa"), par("frequencies"))
-    if k == "GTR":
-        return GTR("m", par("rates"), par("frequencies"))
+    route = c.get("route") or {"kind": "ctor"}
+    rk = route["kind"]
+    norm_opt = route.get("normalize", "absent")
+    names = PARAM_NAMES[k]
     if k == "Empirical":
         # EmpiricalSubstitutionModel leaves the abstract property `rates` to LG/WAG; a harness-side subclass
         # supplies it (as LG/WAG do) so that the real __init__/q/p_t run on arbitrary rates and frequencies
@@ -222,16 +276,143 @@ def build(c):
         return _Emp(
             "m", torch.tensor(c["params"]["rates"][0], dtype=torch.float64),
             torch.tensor(c["params"]["frequencies"][0], dtype=torch.float64))
-    if k in ("GeneralSymmetric", "GeneralNonSymmetric"):
-        dt = GeneralDataType("dt", tuple("s%d" % i for i in range(n)))
-        mapping = Parameter("mapping", torch.tensor(c["mapping"], dtype=torch.long))
-        if k == "GeneralSymmetric":
-            return GeneralSymmetricSubstitutionModel("m", dt, mapping, par("rates"), par("frequencies"))
-        return GeneralNonSymmetricSubstitutionModel("m", dt, mapping, par("rates"), par("frequencies"), True)
-    if k == "MG94":
-        dt = CodonDataType("dt", CodonDataType.GENETIC_CODE_NAMES[c["code"]])
-        return MG94("m", dt, par("alpha"), par("beta"), par("kappa"), par("frequencies"))
-    raise ValueError(k)
+    if rk in ("ctor", "kw"):
+        klass = {"JC69": JC69, "GeneralJC69": GeneralJC69, "LG": LG, "WAG": WAG, "HKY": HKY, "GTR": GTR,
+                 "GeneralSymmetric": GeneralSymmetricSubstitutionModel,
+                 "GeneralNonSymmetric": GeneralNonSymmetricSubstitutionModel, "MG94": MG94}[k]
+        kw = {"id_": "m"}
+        if k == "GeneralJC69":
+            kw["state_count"] = n
+        if k in ("GeneralSymmetric", "GeneralNonSymmetric"):
+            kw["data_type"] = GeneralDataType("dt", tuple("s%d" % i for i in range(n)))
+            kw["mapping"] = Parameter("mapping", torch.tensor(c["mapping"], dtype=torch.long))
+        if k == "GeneralNonSymmetric":
+            kw["normalize"] = False if norm_opt is False else True
+        if k == "MG94":
+            kw["data_type"] = CodonDataType("dt", CodonDataType.GENETIC_CODE_NAMES[c["code"]])
+        order = {"HKY": ["id_", "kappa", "frequencies"], "GTR": ["id_", "rates", "frequencies"],
+                 "GeneralSymmetric": ["id_", "data_type", "mapping", "rates", "frequencies"],
+                 "GeneralNonSymmetric": ["id_", "data_type", "mapping", "rates", "frequencies", "normalize"],
+                 "MG94": ["id_", "data_type", "alpha", "beta", "kappa", "frequencies"],
+                 "GeneralJC69": ["id_", "state_count"]}.get(k, ["id_"])
+        for nm in names:
+            kw[nm] = par(nm)
+        if rk == "ctor":
+            return klass(*[kw[x] for x in order])
+        items = list(kw.items())
+        random.Random(route.get("order", 0)).shuffle(items)
+        return klass(**dict(items))
+    # ---- from_json routes
+    from torchtree.core.utils import JSONParseError, process_object
+
+    _register_all()
+    dic = {}
+    ref = route.get("form") == "ref"
+
+    def pjson(name):
+        return {"id": "m." + name, "type": "Parameter", "tensor": tens(name).tolist()}
+
+    def sub(obj):
+        if ref:
+            process_object(obj, dic)
+            return obj["id"]
+        return obj
+
+    short = {"GeneralSymmetric": "GeneralSymmetricSubstitutionModel",
+             "GeneralNonSymmetric": "GeneralNonSymmetricSubstitutionModel"}.get(k, k)
+    data = None
+    if rk == "cli":
+        from types import SimpleNamespace
+
+        from torchtree.cli import evolution as cli_evolution
+
+        if k in ("JC69", "HKY", "GTR", "LG", "WAG", "MG94"):
+            arg = SimpleNamespace(frequencies=None, model=k, genetic_code=c.get("code", 0))
+            data = cli_evolution.create_substitution_model("m", k, arg)
+            if data.get("type") != k:
+                raise RuntimeError(f"CLI emitted {data.get('type')} for a {k} request")
+            for nm in names:
+                data[nm].pop("full", None)
+                data[nm]["tensor"] = tens(nm).tolist()
+                data[nm]["id"] = "m." + nm
+        elif k == "GeneralNonSymmetric":
+            # the literal of cli/evolution.py: create_tree_likelihood_general (identity mapping, no `normalize`,
+            # an extra `state_count` key, data type inline)
+            data = {"id": "m", "type": "GeneralNonSymmetricSubstitutionModel", "mapping": list(range(n * (n - 1))),
+                    "rates": dict(pjson("rates"), **{"@lower": 0.0}),
+                    "frequencies": dict(pjson("frequencies"), **{"@lower": 0.0, "@upper": 0.0}),
+                    "state_count": n,
+                    "data_type": {"id": "dt", "type": "GeneralDataType", "codes": ["s%d" % i for i in range(n)]}}
+    if data is None:
+        data = {"id": "m", "type": FULL[k] if route.get("fulltype") else short}
+        if k == "GeneralJC69":
+            data["state_count"] = n
+        if k in ("GeneralSymmetric", "GeneralNonSymmetric"):
+            data["data_type"] = sub({"id": "dt", "type": "GeneralDataType", "codes": ["s%d" % i for i in range(n)]})
+            mp = route.get("mapping", "list")
+            if mp == "list":
+                data["mapping"] = list(c["mapping"])
+            elif mp == "object":
+                data["mapping"] = sub({"id": "m.mapping", "type": "Parameter", "tensor": list(c["mapping"])})
+        if k == "GeneralNonSymmetric" and norm_opt != "absent":
+            data["normalize"] = bool(norm_opt)
+        if k == "MG94":
+            data["data_type"] = sub({"id": "dt", "type": "CodonDataType",
+                                     "genetic_code": CodonDataType.GENETIC_CODE_NAMES[c["code"]]})
+        for nm in names:
+            data[nm] = sub(pjson(nm))
+        items = list(data.items())
+        random.Random(route.get("order", 0)).shuffle(items)
+        data = dict(items)
+    data = json.loads(json.dumps(data))
+    try:
+        m = process_object(data, dic)
+    except JSONParseError as e:
+        if k in ("LG", "WAG") and "module name" in str(e):
+            # the short type name (which the CLI emits) of a class that is not registered (fix proposal F51):
+            # not a statement of C04; recorded, and the object is built with the full type name instead
+            CLI_NOTES.append(f"JSON with the short type name {k} (as the CLI emits it) is not loadable: {e}")
+            dic.clear()
+            m = process_object(dict(data, type=FULL[k]), dic)
+        else:
+            raise
+    for nm in names:
+        PARS[nm] = dic["m." + nm]
+    return m
+
+
+def observe(m, c):
+    """the object must hold the options it was given (attributes read defensively)"""
+    import torch
+
+    bad = []
+    route = c.get("route") or {"kind": "ctor"}
+    k = c["kind"]
+    want_cls = {"GeneralSymmetric": "GeneralSymmetricSubstitutionModel",
+                "GeneralNonSymmetric": "GeneralNonSymmetricSubstitutionModel", "Empirical": "_Emp"}.get(k, k)
+    if type(m).__name__ != want_cls:
+        bad.append(f"class {type(m).__name__} for a {want_cls} request")
+    if k == "GeneralNonSymmetric" and hasattr(m, "normalize"):
+        want = False if route.get("normalize", "absent") is False else True
+        if m.normalize is not want:
+            bad.append(f"normalize={m.normalize!r} but the options name {want}")
+    if k in ("GeneralSymmetric", "GeneralNonSymmetric") and hasattr(m, "mapping"):
+        if m.mapping.tensor.tolist() != list(c["mapping"]):
+            bad.append("mapping differs from the one named")
+    if hasattr(m, "state_count") and m.state_count != c["n"]:
+        bad.append(f"state_count={m.state_count} for n={c['n']}")
+    for nm in PARAM_NAMES[k]:
+        if k == "Empirical":
+            continue
+        v = c["params"][nm]
+        t = torch.tensor(v if c["batch"][nm] else v[0], dtype=torch.float64)
+        holder = getattr(m, "_" + nm, None)
+        if holder is None:
+            holder = getattr(m, nm, None)
+        got = getattr(holder, "tensor", holder)
+        if isinstance(got, torch.Tensor) and (got.shape != t.shape or not torch.equal(got, t)):
+            bad.append(f"{nm} holds other values than given")
+    return bad
 
 
 LAYOUT = {"BK": (2, 2), "B1": (4, 1), "1K": (1, 4), "vec": (4,)}
@@ -245,8 +426,10 @@ def impl_eval(c):
     import torch
 
     outs = []
+    OBSERVED[:] = []
     try:
         m = build(c)
+        OBSERVED[:] = observe(m, c)
     except Exception as e:  # an outcome to be judged, not a harness crash
         return [{"status": "raise", "error": (type(e).__name__, str(e)[:200])}]
     n, R = c["n"], c["R"]
@@ -409,6 +592,12 @@ def tol_for(A, freqs):
     return 1e-10 + 100 * EPS * na * kap
 
 
+def unnormalised_requested(c):
+    """`normalize: false` explicitly given to GeneralNonSymmetric: the options name an un-normalised process, so the
+    statement `P = exp(t q()/norm)` is not demanded (everything else is)"""
+    return c["kind"] == "GeneralNonSymmetric" and (c.get("route") or {}).get("normalize", "absent") is False
+
+
 def oracle(c, out):
     """the property's own statements evaluated on the implementation's q(), frequencies, p_t.
     -> list of (name, detail)"""
@@ -452,7 +641,7 @@ def oracle(c, out):
                 bad.append(("entries_in_unit_interval", {"slice": s, "t": t, "min": float(P[b].min()), "max": float(P[b].max())}))
             ref = expm_taylor(Qn * t)
             d = np.abs(P[b] - ref).max()
-            if d > tol:
+            if d > tol and not unnormalised_requested(c):
                 bad.append(("P_eq_exp_tQ_over_norm", {"slice": s, "t": t, "max_dev": float(d), "tol": tol}))
             if c["kind"] in REVERSIBLE:
                 d = np.abs(fr @ P[b] - fr).max()
